@@ -335,18 +335,26 @@ def variants(rng, file, cls):
     # one new distinct coupled class
     f = copy.deepcopy(file)
     c = copy.deepcopy(cls)
-    how = rng.choice(["base", "attr", "param", "return", "inst_from", "inst_fromas", "inst_local", "inst_nested", "inst_nested"])
+    how = rng.choice(["base", "attr", "param", "return", "inst_from", "inst_fromas", "inst_local", "inst_nested", "inst_nested",
+                      "base_qb", "attr_qb", "inst_qb"])
     ref = ("", "Fresh1")
-    if how == "base":
+    if how.endswith("_qb"):
+        # ... living in another module and named like a built-in type (freshmod.ValueError): still ONE more coupled class
+        tys = BUILTIN_TABLES["types"] or CORE_BUILTIN_TYPES
+        ref = (rng.choice(["freshmod", "fm"]), rng.choice(tys))
+        f["imports"].append(("mod", "freshmod") if ref[0] == "freshmod" else ("modas", "freshmodule", "fm"))
+    if how in ("base", "base_qb"):
         c["bases"].append(ref)
-    elif how == "attr":
+    elif how in ("attr", "attr_qb"):
         c["members"].insert(rng.randint(0, len(c["members"])), ("attr", "fresh_field", shapes(ref, ("", "dict"))[rng.randint(0, 6)][1]))
     elif how in ("param", "return"):
         t = shapes(ref, ("", "int"))[rng.randint(0, 6)][1]
         md = dict(name="fresh_method", decos=[], params=[t] if how == "param" else [], ret=t if how == "return" else None, body=[])
         c["members"].append(("method", md))
     else:
-        if how == "inst_from":
+        if how == "inst_qb":
+            pass
+        elif how == "inst_from":
             f["imports"].append(("from", "Fresh1"))
         elif how == "inst_fromas":
             f["imports"].append(("fromas", "OrigFresh", "Fresh1"))
@@ -384,7 +392,7 @@ def variants(rng, file, cls):
             rng.choice(meths)[1]["body"].append((("inst", ref), pos))
         else:
             c["members"].append(("method", dict(name="fresh_method", decos=[], params=[], ret=None, body=[(("inst", ref), pos)])))
-    out.append(("add_coupled:" + how, f, c, ("plus", "Fresh1")))
+    out.append(("add_coupled:" + how, f, c, ("plus", cg.cref_src(ref))))
     return out
 
 
@@ -405,6 +413,88 @@ def builtin_core_cases():
         bases = [("", b)] if b in ("object", "Exception", "ValueError", "dict", "list") else []
         out.append(mk_case(dict(imports=[], classes=[]), dict(name="K", bases=bases, members=members), "builtin-core",
                            {"position": "base+annotation+call", "form": "builtin_type", "builtin": b}))
+    return out
+
+
+# ------------------------------------------------------------------------------------------
+# project classes NAMED like a Python built-in.  The names come from the two tables of cbo.go as the translator regenerates
+# them (Gen/ClassConst.v: cbo_builtin_types, cbo_builtin_functions).  Written through a module (errors.ValueError, alias pt.list,
+# unimported zz.slice) such a class is an ordinary coupled class - only the bare name is Python's built-in -; written bare after
+# `from m import ValueError` / `... as ValueError` / a same-file `class ValueError` the name is (by Class/CBO.v:is_builtin, which
+# goes by the written name) the built-in.  Every name x every qualified form x base / annotation (place and shape rotate) /
+# instantiation (position rotates over ALL expression positions, one more hidden in an argument slot), include_builtins
+# false and (sampled) true.
+# ------------------------------------------------------------------------------------------
+QUAL_FORMS = ["mod", "modas", "unbound_qual"]
+PLAIN_FORMS = ["from", "fromas", "local"]
+BUILTIN_TABLES = {"types": None, "functions": None}       # filled by main from Gen/ClassConst.v
+
+
+def builtin_tables():
+    out = lib.coq_eval("C13_builtin_tables", REQ.replace("Class.CBORun.", "Class.CBORun Gen.ClassConst."),
+                       "Eval vm_compute in (cbo_builtin_types, cbo_builtin_functions).\n")
+    ts, fs = lib.parse_coq_values(out)[0]
+    return [x.strip('"') for x in ts], [x.strip('"') for x in fs]
+
+
+def named_ref(form, name):
+    if form == "mod":
+        return [("mod", "errors")], [], ("errors", name)
+    if form == "modas":
+        return [("modas", "project_types", "pt")], [], ("pt", name)
+    if form == "unbound_qual":
+        return [], [], ("zz", name)
+    if form == "from":
+        return [("from", name)], [], ("", name)
+    if form == "fromas":
+        return [("fromas", "Orig" + name.capitalize(), name)], [], ("", name)
+    return [], [name], ("", name)
+
+
+def builtin_named_cases(rng, types, functions):
+    out = []
+    positions = EXPR_POS + ["PNestedDefDecorator"]
+    run = ("method", dict(name="run", decos=[], params=[], ret=None, body=[]))
+    rot = rng.randrange(1000)
+    funcs = [functions[(rot + 5 * i) % len(functions)] for i in range(3)] if functions else []
+    plain_names = [types[(rot + 7 * i) % len(types)] for i in range(5)]
+    k = q = rot
+    for name in types + funcs:
+        is_func = name in funcs
+        forms = QUAL_FORMS + (PLAIN_FORMS if name in plain_names else [])
+        for form in forms:
+            k += 1
+            q += form in QUAL_FORMS                      # the qualified forms walk through ALL positions
+            imps, classes, ref = named_ref(form, name)
+            tags = {"form": form, "builtin_name": name, "table": "functions" if is_func else "types"}
+            f = dict(imports=imps, classes=classes + ["Other"])
+            batch = []
+            # base class (alone / between an ordinary class and a real built-in)
+            if not is_func:
+                bases = [ref] if k % 2 else [("", "Other"), ref, ("", "Exception")]
+                batch.append((dict(name="K", bases=bases, members=[run]), dict(tags, position="base")))
+            # annotation: place and shape rotate
+            sh = shapes(ref, ("", "Other"))
+            sname, t = sh[k % len(sh)]
+            place_ = ("attr", "param", "return")[k % 3]
+            if place_ == "attr":
+                members = [("attr", "field", t), run]
+            elif place_ == "param":
+                members = [("method", dict(name="run", decos=[], params=[None, t], ret=None, body=[]))]
+            else:
+                members = [("method", dict(name="run", decos=["property"], params=[], ret=t, body=[]))]
+            batch.append((dict(name="K", bases=[], members=members), dict(tags, position=place_, shape=sname)))
+            # instantiation: at a rotating position, and hidden in an argument slot of another call
+            pos = positions[(q if form in QUAL_FORMS else k) % len(positions)]
+            batch.append((dict(name="K", bases=[], members=place((("inst", ref), pos))), dict(tags, position=pos)))
+            apos = ASSIGN_LIKE[k % len(ASSIGN_LIKE)]
+            host = (("inst", ("", "make_host")), apos, [(cg.SLOTS[k % len(cg.SLOTS)], (("inst", ref), []))])
+            if form == "mod":
+                batch.append((dict(name="K", bases=[], members=place(host)), dict(tags, position=apos, slot=cg.SLOTS[k % len(cg.SLOTS)])))
+            for j, (cls, tg) in enumerate(batch):
+                out.append(mk_case(f, cls, "builtin-named", tg))
+                if (k + j) % 6 == 0 or form in PLAIN_FORMS:
+                    out.append(mk_case(f, cls, "builtin-named", dict(tg, inc=True), inc=True))
     return out
 
 
@@ -760,7 +850,7 @@ def dep_name(r):
 
 def eval_coq(ck, cases, dlow, dmed):
     jobs = []
-    shard = 120
+    shard = min(300, max(120, -(-len(cases) // 24)))       # two rounds of the 12 workers when possible
     for off in range(0, len(cases), shard):
         items = ["run_cbo %s %s %s" % (coq_opts(c, dlow, dmed), cg.file_coq(c["file"], c["cls"]), cg.class_coq(c["cls"])) for c in cases[off:off + shard]]
         jobs.append(("C13_cases_%d" % off, REQ, "Definition cases := %s.\nEval vm_compute in cases.\n" % cg.clist(items)))
@@ -897,6 +987,15 @@ def main(tier):
         ck.broken_ties.append("position table check failed: %s" % str(e)[-600:])
 
     cases = position_matrix() + nested_matrix() + annotation_matrix() + threshold_cases() + builtin_core_cases() + builtin_inc_cases()
+    # project classes named like a built-in (names from the regenerated tables of cbo.go)
+    try:
+        BUILTIN_TABLES["types"], BUILTIN_TABLES["functions"] = builtin_tables()
+        if not BUILTIN_TABLES["types"]:
+            ck.broken_ties.append("the built-in type table of cbo.go (Gen/ClassConst.v:cbo_builtin_types) is empty")
+        else:
+            cases += builtin_named_cases(rng, BUILTIN_TABLES["types"], BUILTIN_TABLES["functions"])
+    except Exception as e:
+        ck.broken_ties.append("cannot read the built-in tables (Gen/ClassConst.v): %s" % str(e)[-600:])
     # built-ins included: tie only
     for c in annotation_matrix()[::7] + position_matrix()[7::23]:
         c = dict(c, inc=True)
@@ -1045,8 +1144,9 @@ def main(tier):
         "distinct_nontrivial": len(distinct),
         "rule": "position x import-form matrix (one instantiation per class), nested matrix (an instantiation hidden in the argument list of another call: "
                 "host kind x argument slot x statement context, full cross for assignment-like contexts, depth up to 4, one-more-argument pairs), base/annotation form x shape x place matrix, "
+                "project classes NAMED like a built-in (every name of cbo.go's regenerated built-in type table and some of its function table: written through a module - import m / import m as a / unimported qualifier - as base, in an annotation (place and shape rotate) and instantiated (position rotates over all expression positions, and hidden in an argument slot): counted under the dotted name; written bare after from-import / import-as / a same-file class of that name: the built-in by name; include_builtins false and true), "
                 "threshold lattice (0..10 dependencies x 10 threshold pairs), random classes with 5 metamorphic variants each "
-                "(repeat, reorder, rename self, add unrelated, add one coupled class), built-ins included (every position x built-in type; built-in function / local class in assignment-like positions), "
+                "(repeat, reorder, rename self, add unrelated, add one coupled class - also one living in another module and named like a built-in type), built-ins included (every position x built-in type; built-in function / local class in assignment-like positions), "
                 "subscripted forms (class K(Base[T]) x import form x arity, x: mod.Container[T] x place x import form), parser position table (find-path), "
                 "multi-file runs (projects of 2-4 files analysed in ONE `pyscn analyze --select cbo` run: a file imports a name by from-import / import-as / module import / module import-as, "
                 "another file uses it WITHOUT importing it - there a plain function, a local class, undefined, or imported too - by instantiation at a rotating position / method call on the name / both; "
